@@ -348,6 +348,43 @@ def purFn (name : String) (args : List (Option Value)) : Res :=
     | _ => .err
   | _, _ => .oom
 
+/-- the optional `recursive` argument of `map_keys` / `map_values` (default `false`) -/
+def recArg (rec : Option Thunk) (s : St) : Res × St :=
+  match rec with
+  | none => (.ok (.bool false), s)
+  | some t => t s
+
+/-- `map_keys` after its `recursive` argument was evaluated (recursive iteration is not modelled) -/
+def mapKeysCall (vars : List String) (body value : Thunk) : Res × St → Res × St
+  | (.ok (.bool false), s) =>
+    (match value s with
+     | (.ok (.obj m), s) =>
+       (match mapKeysMap vars body m s with
+        | (.ok kvs, s) => (.ok (.obj (collectMap kvs)), s)
+        | (.error r, s) => (r, s))
+     | r => r)
+  | (.ok (.bool true), s) => (.oom, s)
+  | (.ok _, s) => (.err, s)
+  | r => r
+
+/-- `map_values` after its `recursive` argument was evaluated -/
+def mapValuesCall (vars : List String) (body value : Thunk) : Res × St → Res × St
+  | (.ok (.bool false), s) =>
+    (match value s with
+     | (.ok (.obj m), s) =>
+       (match mapValuesMap vars body m s with
+        | (.ok m', s) => (.ok (.obj m'), s)
+        | (.error r, s) => (r, s))
+     | (.ok (.arr a), s) =>
+       (match mapValuesList vars body a s with
+        | (.ok a', s) => (.ok (.arr a'), s)
+        | (.error r, s) => (r, s))
+     | (.ok v, s) => mapValue vars body v s
+     | r => r)
+  | (.ok (.bool true), s) => (.oom, s)
+  | (.ok _, s) => (.err, s)
+  | r => r
+
 /-- a function call whose arguments are ordinary expressions (not `del`/`exists`). -/
 def callFn (name : String) (args : List (Option String × Thunk)) (closure : Option (List String × Thunk))
     (s : St) : Res × St :=
@@ -376,41 +413,8 @@ def callFn (name : String) (args : List (Option String × Thunk)) (closure : Opt
             | (.error r, s) => (r, s))
          | (.ok _, s) => (.err, s)
          | r => r)
-      | "map_keys", [some value, rec], some (vars, body) =>
-        let recRes : Res × St := match rec with
-          | none => (.ok (.bool false), s)
-          | some t => t s
-        (match recRes with
-         | (.ok (.bool false), s) =>
-           (match value s with
-            | (.ok (.obj m), s) =>
-              (match mapKeysMap vars body m s with
-               | (.ok kvs, s) => (.ok (.obj (collectMap kvs)), s)
-               | (.error r, s) => (r, s))
-            | r => r)
-         | (.ok (.bool true), s) => (.oom, s)
-         | (.ok _, s) => (.err, s)
-         | r => r)
-      | "map_values", [some value, rec], some (vars, body) =>
-        let recRes : Res × St := match rec with
-          | none => (.ok (.bool false), s)
-          | some t => t s
-        (match recRes with
-         | (.ok (.bool false), s) =>
-           (match value s with
-            | (.ok (.obj m), s) =>
-              (match mapValuesMap vars body m s with
-               | (.ok m', s) => (.ok (.obj m'), s)
-               | (.error r, s) => (r, s))
-            | (.ok (.arr a), s) =>
-              (match mapValuesList vars body a s with
-               | (.ok a', s) => (.ok (.arr a'), s)
-               | (.error r, s) => (r, s))
-            | (.ok v, s) => mapValue vars body v s
-            | r => r)
-         | (.ok (.bool true), s) => (.oom, s)
-         | (.ok _, s) => (.err, s)
-         | r => r)
+      | "map_keys", [some value, rec], some (vars, body) => mapKeysCall vars body value (recArg rec s)
+      | "map_values", [some value, rec], some (vars, body) => mapValuesCall vars body value (recArg rec s)
       | _, _, none =>
         (match evalSlots slots s with
          | (.ok vals, s) => (purFn name vals, s)
